@@ -456,6 +456,11 @@ def run(ctx):
         w1 = gen.rot(words[c], rng.randrange(len(words[c])))
         w2 = gen.rot(S["doubles"][c], rng.randrange(len(S["doubles"][c])))
         hist = [[c, w1], [c, w2]]
+        if rng.random() < 0.5:
+            # … the two occurrences on a linear fragment: on a circle a structure with a greedy insert reads from either
+            # occurrence round to the other one (a third and fourth site: refused wherever the reading starts), on a
+            # fragment only the reading that starts at the first one does
+            hist = [[c, w1], [c, gen.rnd(rng, rng.randrange(7)) + S["doubles"][c], "L"]]
         if rng.random() < 0.3:
             hist.insert(1, [c, gen.rot(words[c], rng.randrange(len(words[c])))])
         ctx.guard(check_case, {"history": hist})
